@@ -15,7 +15,7 @@ META = dict(
     id='C10',
     level='proof',
     technique='Coq proof (price map / price graph model refined to "latest entry not after D, later insertion wins a tie", reciprocal, product along the unique path) + differential correspondence of the extracted model against ledger',
-    level_text='Theorems in coq/Properties/Properties_C10.v state, for all price histories (any number of entries, any insertion order, any moments) and all valuation moments, that the model of commodity_history_impl_t selects per commodity pair exactly the latest entry not after D (a later insertion replacing an earlier one at the same moment, nothing when every entry is later), that entries dated after D never influence an edge or a conversion, that a reversed quote is used as its reciprocal and a chain as the product along the unique path, that a converted amount is exactly price times quantity and that an amount without applicable price stays as it is; the memoising lookup equals the plain lookup for every interleaving of lookups and price recordings (so lookups made by expressions evaluated while the journal is read cannot change a report); that rests on the source fact, re-read from commodity.cc on every run (Gen/PriceMemo.v), that recording or removing a price clears the memo of every commodity. The model is tied to the code by running generated journals through freshly built ledger (bal/reg -X/-V, prices, pricedb; exact num/den through the verif_rational hook) and the extracted model and comparing every row.',
+    level_text='Theorems in coq/Properties/Properties_C10.v state, for all price histories (any number of entries, any insertion order, any moments) and all valuation moments, that the model of commodity_history_impl_t selects per commodity pair exactly the latest entry not after D (a later insertion replacing an earlier one at the same moment, nothing when every entry is later), that entries dated after D never influence an edge or a conversion, that a reversed quote is used as its reciprocal and a chain as the product along the unique path, that a converted amount is exactly price times quantity and that an amount without applicable price stays as it is; the memoising lookup equals the plain lookup for every interleaving of lookups and price recordings (so lookups made by expressions evaluated while the journal is read cannot change a report); that rests on the source fact, re-read from commodity.cc on every run (Gen/PriceMemo.v), that recording or removing a price clears the memo of every commodity. A price taken from a posting cost is dated by the date of its transaction whatever dates the posting carries; which date finalize hands to exchange() is re-read from xact.cc on every run (Gen/CostDate.v). The model is tied to the code by running generated journals through freshly built ledger (bal/reg -X/-V, prices, pricedb; exact num/den through the verif_rational hook) and the extracted model and comparing every row.',
     level_note='Trusted: Coq kernel; extraction + OCaml driver and the python harness for the correspondence; GMP modelled as Q. Priced pairs form a forest (unique paths): the choice Dijkstra makes among several paths is not modelled nor claimed. Fixated lot prices ({=..}), value expressions on commodities, price download (-Q) and a default commodity (D directive) are outside the model.',
     design_ref='DESIGN.md section 7 C10',
     assumptions=['the priced commodity pairs of a journal form a forest (the quantifier of the property: an edge, a reversed edge or a simple chain)',
@@ -79,9 +79,24 @@ class Journal:
                                                               every later transaction)"""
 
     def __init__(self):
+        self.pd = {}        # n of a C / I element -> (transaction aux day, posting day, posting aux day), None = not written
         self.elems = []
         self.comms = []
         self.shape = ''
+
+    def xline(self, day, n):
+        xa = self.pd.get(n, (None, None, None))[0]
+        return dstr(day) + ('=' + dstr(xa) if xa is not None else '')
+
+    def pnote(self, n):
+        _, pp, pa = self.pd.get(n, (None, None, None))
+        if pp is None and pa is None:
+            return ''
+        return '    ; [%s%s]' % (dstr(pp) if pp is not None else '', '=' + dstr(pa) if pa is not None else '')
+
+    def dates_sx(self, day, n):
+        xa, pp, pa = self.pd.get(n, (None, None, None))
+        return [day] + [(x if x is not None else '-') for x in (xa, pp, pa)]
 
     def text(self, drop_p_after=None):
         out = []
@@ -101,11 +116,12 @@ class Journal:
                 op = ('@@' if total else '@')
                 if virt:
                     op = '(' + op + ')'
-                out += ['%s c%d' % (dstr(day), n), '    X:%d    %s %s %s' % (n, atext(aq, adec, ac), op, atext(cq, cdec, cc)),
+                out += ['%s c%d' % (self.xline(day, n), n),
+                        '    X:%d    %s %s %s%s' % (n, atext(aq, adec, ac), op, atext(cq, cdec, cc), self.pnote(n)),
                         '    Y:%d' % n, '']
             elif k == 'I':
                 _, day, xq, xdec, xc, yq, ydec, yc, n = e
-                out += ['%s i%d' % (dstr(day), n), '    X:%d    %s' % (n, atext(xq, xdec, xc)),
+                out += ['%s i%d' % (self.xline(day, n), n), '    X:%d    %s%s' % (n, atext(xq, xdec, xc), self.pnote(n)),
                         '    Y:%d    %s' % (n, atext(yq, ydec, yc)), '']
             elif k == 'H':
                 _, day, hs, n = e
@@ -144,11 +160,11 @@ class Journal:
                 its.append(['P', when, src.encode(), q.numerator, q.denominator, tgt.encode()])
             elif k == 'C':
                 _, day, aq, adec, ac, total, cq, cdec, cc, virt, n = e
-                its.append(['C', day, aq.numerator, aq.denominator, ac.encode(), bool(total),
+                its.append(['C'] + self.dates_sx(day, n) + [aq.numerator, aq.denominator, ac.encode(), bool(total),
                             cq.numerator, cq.denominator, cc.encode(), bool(virt)])
             elif k == 'I':
                 _, day, xq, xdec, xc, yq, ydec, yc, n = e
-                its.append(['I', day, xq.numerator, xq.denominator, xc.encode(), yq.numerator, yq.denominator, yc.encode()])
+                its.append(['I'] + self.dates_sx(day, n) + [xq.numerator, xq.denominator, xc.encode(), yq.numerator, yq.denominator, yc.encode()])
             elif k == 'L' and lookups:
                 src, tgt, day = e[1:4]
                 if len(e) > 4 and e[4] == 'auto':
@@ -192,7 +208,10 @@ class Journal:
         """the price facts the property text speaks of, in file order: (when, src, q, tgt).
         `P` lines as written; a posting `a A @ p B` / `a A @@ c B` on day d says one A costs p B /
         |c / a| B at d; two commodities without cost: the first posting's commodity costs |y / x|.
-        A virtual cost `(@)` is documented not to be recorded; a zero cost says nothing."""
+        A virtual cost `(@)` is documented not to be recorded; a zero cost says nothing.
+        A price taken from a posting cost is dated by the TRANSACTION's date, whatever dates the
+        posting itself carries (`; [DATE]`, `; [DATE=AUX]`, `; [=AUX]`) and whatever auxiliary date
+        the transaction has, with or without --aux-date."""
         fs = []
         for e in self.elems:
             k = e[0]
@@ -207,6 +226,33 @@ class Journal:
                 _, day, xq, xdec, xc, yq, ydec, yc, n = e
                 fs.append((day * 86400, xc, abs(yq / xq), yc))
         return fs
+
+
+def give_dates(rng, j, elems, days):
+    """posting-level dates on costed postings (`; [DATE]`, `; [DATE=AUX]`, `; [=AUX]`), earlier and later
+    than the transaction's date, and auxiliary dates on their transactions; returns the days used"""
+    used = []
+
+    def other(day):
+        d = rng.choice(days + [day]) + rng.choice([-9, -3, -1, 1, 2, 6, 15])
+        used.append(d)
+        return d
+    for e in elems:
+        if e[0] not in ('C', 'I'):
+            continue
+        day, n = e[1], e[-1]
+        xa = other(day) if rng.random() < 0.25 else None
+        r = rng.random()
+        pp = pa = None
+        if r < 0.30:
+            pp = other(day)
+        elif r < 0.38:
+            pp, pa = other(day), other(day)
+        elif r < 0.45:
+            pa = other(day)
+        if xa is not None or pp is not None or pa is not None:
+            j.pd[n] = (xa, pp, pa)
+    return used
 
 
 def gen_journal(rng, memo=False, multi=False):
@@ -289,7 +335,8 @@ def gen_journal(rng, memo=False, multi=False):
         hs.append((q, dec, c))
     elems.append(('H', BASE - 20, hs, 0))
     # register observations: postings to W:w dated around the price days
-    cand = sorted({d + o for d in days for o in (-1, 0, 1)} | {days[0] - 7, days[-1] + 9})
+    extra = give_dates(rng, j, elems, days)
+    cand = sorted({d + o for d in days + extra for o in (-1, 0, 1)} | {days[0] - 7, days[-1] + 9})
     for i in range(rng.choice([3, 5, 8])):
         q, dec = rq(rng, 1, 999, (0, 1, 2))
         elems.append(('W', rng.choice(cand), q, dec, rng.choice(comms), i))
@@ -392,7 +439,8 @@ def gen_interleaved(rng, idx):
         hs.append((q, dec, c))
     pos = rng.randrange(len(elems) + 1)
     elems.insert(pos, ('H', BASE - 20, hs, 0))
-    cand = sorted({d + o for d in j.days for o in (-1, 0, 1)} | {dm, dm + 1, dm - 1})
+    extra = give_dates(rng, j, elems, j.days)
+    cand = sorted({d + o for d in j.days + extra for o in (-1, 0, 1)} | {dm, dm + 1, dm - 1})
     for i in range(rng.choice([1, 2, 3])):
         q, dec = rq(rng, 1, 999, (0, 1, 2))
         elems.insert(rng.randrange(len(elems) + 1), ('W', rng.choice(cand), q, dec, rng.choice(comms), i))
@@ -525,6 +573,8 @@ def run_query(qr):
     else:
         fmtopt = '--prices-format' if qr.kind == 'prices' else '--pricedb-format'
         args = ['-f', qr.path, qr.kind, '--empty', '--now', dstr(qr.day), fmtopt, FMT_PRICES]
+    if getattr(qr, 'aux', False):
+        args = args[:3] + ['--aux-date'] + args[3:]
     qr.args = args
     st, out, err = lib.run_ledger(args)
     qr.status = st
@@ -726,7 +776,8 @@ def run(ctx, n_override=None):
     res.rule = ('(plus: journals whose check / assert / amount-expression / automated-transaction look-ups are interleaved '
                 'with the quotes of a 2-4 link chain, a later quote on the first, a middle or the last link) '
                 'journals of 1-30 recorded prices (P lines with and without time of day, per-unit / total / virtual / zero '
-                'costs, implied two-commodity rates) over 2-5 commodities whose priced pairs form a forest, entries on '
+                'costs, implied two-commodity rates; costed postings with their own `[DATE]`, `[DATE=AUX]`, `[=AUX]` earlier and '
+                'later than the transaction date, transactions with auxiliary dates, some reports under --aux-date) over 2-5 commodities whose priced pairs form a forest, entries on '
                 '1-6 distinct days in shuffled order; each observed through bal -X/-V at dates before, on, between and after '
                 'the price days, reg -X/-V, prices, pricedb; non-trivial = the report converts at least one amount through '
                 'a recorded price or lists at least one price; distinct by journal text + command line')
@@ -765,13 +816,14 @@ def run(ctx, n_override=None):
         picks = set(rng.sample(cand, min(len(cand), 5)))
         picks.add(rng.choice(j.days))
         for d in sorted(picks):
-            queries.append(Query(j, 'bal', path=j.path, tgt=rng.choice(tree + ['ZZZ'] if rng.random() < 0.05 else tree), day=d))
+            queries.append(Query(j, 'bal', path=j.path, tgt=rng.choice(tree + ['ZZZ'] if rng.random() < 0.05 else tree), day=d,
+                                 aux=rng.random() < 0.2))
         for d in rng.sample(j.v_days, min(2, len(j.v_days))):
             queries.append(Query(j, 'bal', path=j.path, tgt=None, day=d))
         queries.append(Query(j, 'reg', path=j.path, tgt=rng.choice(tree), day=rng.choice(cand)))
         queries.append(Query(j, 'reg', path=j.path, tgt=None, day=rng.choice(cand)))
         for d in rng.sample(cand, 2):
-            queries.append(Query(j, 'prices', path=j.path, day=d))
+            queries.append(Query(j, 'prices', path=j.path, day=d, aux=rng.random() < 0.2))
         queries.append(Query(j, 'pricedb', path=j.path, day=rng.choice(cand)))
         # last sentence of the property: drop every P line dated after D, nothing may change
         bq = rng.choice([q for q in queries[-12:] if q.j is j and q.kind == 'bal' and q.tgt])
